@@ -87,6 +87,11 @@ CURATED += ["foo*/", "/*x", "a*/b", "x/*", "*/", "a*b", "a/b"]
 CURATED += ["9999-12-31T23:59:59-07", "0001-01-01T00:00:00+01:00", "9999-365T23:00-1",
             "0001-001T00:00+12", "9999-12-31T23:59:59.999999Z", "0001-01-01T00:00",
             "9999-12-31T23:59:59-12:45", "0001-01-01T00:00:00.000001+00:01"]
+# a leap second together with a zone offset; long runs of letters and digits that end
+# in a character no identifier has (file names)
+CURATED += ["23:59:60-07", "00:00:60-1", "2016-12-31T23:59:60+00:00", "12:00:60+01:30",
+            "ESP011290185REDMOSAIC00000000010000000001COLOR.IMG", "A" * 40 + ".",
+            "abcdefghijklmnopqrstuvwxyz0123456789-x", "a" * 35 + "_", "Z9" * 20 + ":b"]
 # lexemes that mean something to str.format(), the % operator, re and string.Template
 CURATED += ['"{}"', "'{a}'", '"{0}"', '"%s"', '"%(a)s"', "<{m}>", "<%s>", '"{"', '"}"',
             "'{0!r:>{1}}'", '"\\1"', '"$x"', "a{}", "%s", "{0}", "<{>"]
